@@ -1,9 +1,9 @@
 SPECIFICATION Spec
 CONSTANTS
-  StepRecovery = FALSE
-  RCrashes = 0
+  StepRecovery = TRUE
+  RCrashes = 1
   Order <- Two
   MarkersFirst = TRUE
 INVARIANTS CountInBounds ClosedClean RecoveredClean
-PROPERTY Closes
+PROPERTY Closes RecoveryEnds
 CHECK_DEADLOCK FALSE
